@@ -331,6 +331,20 @@ def rule_batch_guards(ctx):
                        f"`{t[:90]}`" if ok else f"`{t[:90]}` looks at the first standard type only: the optional data of the other types is dropped", fl.loc(node))
     if n < 1:
         ctx.fail("create_lines: tests for the optional standard-type columns not found")
+    fsh = ctx.repo.func(f"{C}.shunt_create:create_shunts")
+    dv = next((st for st in ast.walk(fsh.node) if isinstance(st, ast.Assign) and ast.unparse(st.targets[0]) == "vn_kv"), None)
+    t = ast.unparse(dv.value).replace(" ", "") if dv is not None else ""
+    ok = dv is not None and ".loc[buses]" in t and "isin" not in t
+    ctx.ob(R, f"{C}.shunt_create::create_shunts::default-vn_kv", ok, f"default vn_kv = {t}" if ok else
+           f"`vn_kv = {t[:90]}` takes the bus voltages in bus-table order, not in the order of `buses`: shunt k gets the voltage of another bus", fsh.loc(dv) if dv is not None else fsh.loc())
+    fa = ctx.repo.func(f"{U}:_add_to_entries_if_not_nan")
+    blk = next((x for x in ast.walk(fa.node) if isinstance(x, ast.If) and "_not_nan(values)" in ast.unparse(x.test)), None)
+    fl = [x.lineno for x in ast.walk(blk) if isinstance(x, ast.Call) and isinstance(x.func, ast.Attribute) and x.func.attr == "fillna"] if blk is not None else []
+    ca = [x.lineno for st in (blk.body if blk is not None else []) for x in ast.walk(st) if isinstance(x, ast.Call) and ast.unparse(x.func) == "_try_astype"]
+    ok = bool(fl) and bool(ca) and max(fl) < min(ca)
+    ctx.ob(R, f"{U}::_add_to_entries_if_not_nan::fill-before-cast", ok, "missing entries are filled with the default before the dtype cast" if ok else
+           "the dtype cast precedes fillna(default): NaN cast to bool is True, so unspecified entries of a flag vector become True instead of the default",
+           fa.loc(blk) if blk is not None else fa.loc())
     ft = ctx.repo.func(f"{C}.trafo_create:create_transformers3w")
     upd = [st.lineno for st in ast.walk(ft.node) if isinstance(st, ast.Expr) and isinstance(st.value, ast.Call) and ast.unparse(st.value.func) == "params.update"
            and "std_params" in ast.unparse(st.value)]
@@ -387,6 +401,8 @@ def variants(repo):
         V("batch dc lines drop alpha", l, in_function("create_lines_dc", lambda s: s.replace('        if "alpha" in net.line.columns and "alpha" in lineparam:\n            entries["alpha"] = lineparam["alpha"]\n', '', 1)), "create_lines_dc::alpha"),
         V("pwl power_type filter without guard", u, in_function("_costs_existance_check", replace_once("        if isinstance(power_type, str):\n            pwl_exist &= (net.pwl_cost.power_type == power_type).values", "        pwl_exist &= (net.pwl_cost.power_type == power_type).values")), "power-type-filter"),
         V("wards checked against the storage table", "pandapower/create/ward_create.py", replace_once('index = _get_multiple_index_with_check(net, "ward", index, len(buses))', 'index = _get_multiple_index_with_check(net, "storage", index, len(buses))'), "INDEX-TABLE"),
+        V("default shunt voltage in bus-table order", "pandapower/create/shunt_create.py", replace_once("vn_kv = net.bus.vn_kv.loc[buses]", "vn_kv = net.bus.vn_kv.values[net.bus.index.isin(buses)]"), "default-vn_kv"),
+        V("cast before filling the default", u, in_function("_add_to_entries_if_not_nan", lambda s: s.replace("        if _not_nan(default_val):\n            entries[column] = entries[column].fillna(default_val)\n        _try_astype(entries, column, dtype)\n", "        _try_astype(entries, column, dtype)\n        if _not_nan(default_val):\n            entries[column] = entries[column].fillna(default_val)\n", 1)), "fill-before-cast"),
         V("empty table skips the duplicate check", u, replace_once("    u, c = uni(index, return_counts=True)\n", "    if not len(net[table]):\n        return index\n    u, c = uni(index, return_counts=True)\n"), "BATCH-GUARD"),
         V("zero sequence decided by the first type", l, in_function("create_lines", lambda s: s.replace('        for param in ("r0_ohm_per_km", "x0_ohm_per_km", "c0_nf_per_km"):\n            if any(param in line_param_dict for line_param_dict in lineparam):\n', '        if "r0_ohm_per_km" in lineparam[0]:\n            for param in ("r0_ohm_per_km", "x0_ohm_per_km", "c0_nf_per_km"):\n', 1)), "BATCH-GUARD"),
         V("series kept by label on partial overlap", u, replace_once("not np_all(isin(val.index, index))", "not np_any(isin(val.index, index))"), "SERIES-ALIGN"),
